@@ -5,12 +5,14 @@ A model 'TXR i ?' line matches any implementation TXR i line.  Prints one record
 diverging history: history index, height, first differing line pair."""
 import sys, json
 
-def split_histories(path):
+def split_histories(path, keep_trig=False):
     hs, cur = [], []
     for l in open(path):
         l = l.rstrip('\n')
         if l == 'END':
             hs.append(cur); cur = []
+        elif l.startswith(('TRIG', 'RESP', 'STORE')) and not keep_trig:
+            continue
         else:
             cur.append(l)
     if cur: hs.append(cur)
